@@ -3,6 +3,7 @@
 -/
 import DV.Model.TableWF
 import DV.Properties.C03
+import DV.Properties.C03Round
 import DV.Generated.Dict
 import DV.Generated.Classes
 import DV.Generated.Commands
@@ -48,5 +49,25 @@ theorem C03_tables_one_to_one (c : ClassDef) (hc : c ∈ Gen.classes) (d : AttrD
       simp only [ht, Bool.and_eq_true] at hdef
       have : e.ty = tagGrouped := by simpa using hdef.1
       simp [this]
+
+/-- The scalar round trip for the classes of the working tree (the distinctness
+    premise is discharged by `C03_tables_wellformed`). -/
+theorem C03_tables_roundtrip_scalars (g : Bool) (fuel fuel' cls : Nat) (c : ClassDef)
+    (fs : List (Nat × FVal)) (additional avps : List Avp)
+    (hc : findClass Gen.classes cls = some c) (hadd : c.additional ≠ 0)
+    (hval : ∀ d ∈ c.defs, ScalarOrUnset Gen.dict d (fieldOf fs d))
+    (hnl : ∀ d ∈ c.defs, fieldOf fs d ≠ .unset → d.isList = false)
+    (hund : ∀ a ∈ additional, neededDef c.defs a.code a.vendor = none)
+    (hgen : generateFuel rfcTime Gen.dict Gen.classes (fuel + 1) (.obj cls fs additional) = .ok avps) :
+    ∃ f1, assignFuel (getValue rfcTime g) Gen.dict Gen.classes (fuel' + 1) cls avps = .ok (.obj cls f1 additional) ∧
+      ∀ d ∈ c.defs, fieldOf f1 d = (match fieldOf fs d with | .scalar v => .scalar v | _ => fieldOf (initFields c) d) := by
+  have hmem : c ∈ Gen.classes := by
+    unfold findClass at hc
+    exact List.mem_of_getElem? hc
+  have hall := C03_tables_wellformed
+  simp only [allClassesWF, Bool.and_eq_true, List.all_eq_true] at hall
+  have hwf := hall.2 c hmem
+  simp only [classWF, Bool.and_eq_true] at hwf
+  exact C03_roundtrip_scalars Gen.dict Gen.classes g fuel fuel' cls c fs additional avps hc hwf.1.1.2 hadd hval hnl hund hgen
 
 end DV
